@@ -111,9 +111,10 @@ pub fn parse_tail(tail: &str) -> JobId<'_> {
         "-" => JobId::PreviousJob,
         _ => match tail.strip_prefix('?') {
             Some(substring) => JobId::NameSubstring(substring),
+            // `str::parse` accepts a leading `+`, which a job number does not.
             None => match tail.parse::<NonZeroUsize>() {
-                Ok(number) => JobId::JobNumber(number),
-                Err(_) => JobId::NamePrefix(tail),
+                Ok(number) if !tail.starts_with('+') => JobId::JobNumber(number),
+                _ => JobId::NamePrefix(tail),
             },
         },
     }
